@@ -181,7 +181,7 @@ func genHist(g *hx.Gen, forceTwoStep bool, a, b int) {
 }
 
 func gen(g *hx.Gen) {
-	n := g.Count(2000, 30000)
+	n := g.Count(2000, 20000)
 	for i := 0; i < n; i++ {
 		genHist(g, false, 0, 0)
 	}
